@@ -29,6 +29,20 @@ CONFIG = {
                 'repaired by fixes/C12-3.diff, the hypothesis is gone'],
 }
 
+# the same harness source built a second time WITHOUT sanitizers and linked with the real src/data.cc + src/io.cc:
+# Parser<I,D>::Create (factory registry, URI arguments, thread count, ThreadedParser wrapper) on real files
+CONFIG['extra'] = [{
+    'driver': 'Parse',
+    'harness': {'name': 'parsers-create',
+                'srcs': ['harness/h_parsers.cc', '$REPO/src/data.cc', '$REPO/src/io.cc', '$REPO/src/io/local_filesys.cc',
+                         '$REPO/src/io/filesys.cc', '$REPO/src/io/line_split.cc', '$REPO/src/io/recordio_split.cc',
+                         '$REPO/src/io/indexed_recordio_split.cc', '$REPO/src/io/input_split_base.cc', '$REPO/src/recordio.cc'],
+                'flags': ['-fopenmp', '-DVH_WITH_DATACC=1', '-DDMLC_CORE_VERIF_BUFFER_WORDS=4'],
+                'sanitize': False,
+                'args': ['--prop', 'C12'],
+                'timeout': 600},
+}]
+
 MANIFEST = {
     'text': 'Lean 4 theorems: for every table, every rendering style and every exact conversion the model of ParseBlock returns '
             'exactly the rows of the table (libsvm, libfm, csv), on top of the C11 line decomposition; model regenerated / tied to '
